@@ -7,6 +7,7 @@ from ..report import AnalysisError
 from ..srcmodel import unparse, norm, walk_no_nested, calls_in, fold_const
 from .common import (is_method_call, recv_of, get_kw, node_obj, F3, fde_guard, cfg_of, facts_at, find_stmt_node)
 from . import mergerules as mr
+from .common import thorough
 from . import mergetrace as mt
 from .tagtable import check_flag_tags, constructors
 
@@ -211,9 +212,23 @@ def r5(repo, run):
     """an override `a.b[i][j]=v` addresses the path a -> b -> i -> j in the order written: process_cmdline evaluated on concrete
     options, the produced text read back with PyYAML's composer"""
     pc = repo.func('Config.process_cmdline')
-    yamls, filenames, raws = _cmdline(repo, [c[0] for c in CMD_CASES])
+    cases = list(CMD_CASES)
+    if thorough():
+        # every override path of up to 3 dotted components, each with 0..3 list indices out of {0, 1, 2}
+        import itertools
+        comps = []
+        for nm in ('a', 'b'):
+            for k in range(0, 4):
+                for idx in itertools.product((0, 1, 2), repeat=k):
+                    comps.append((nm + ''.join('[%d]' % i for i in idx), [nm] + [str(i) for i in idx]))
+        for n in (1, 2, 3):
+            for combo in itertools.product(comps[::3] if n == 3 else comps, repeat=n):
+                if len(cases) >= 2500:
+                    break
+                cases.append(('.'.join(c[0] for c in combo) + '=7', [x for c in combo for x in c[1]], '7'))
+    yamls, filenames, raws = _cmdline(repo, [c[0] for c in cases])
     bad = []
-    for (opt, want, val), text, raw in zip(CMD_CASES, yamls, raws):
+    for (opt, want, val), text, raw in zip(cases, yamls, raws):
         rt, chain, leaf = _key_chain(text)
         if chain is None:
             bad.append('the option %r produces text that does not parse (%s)' % (opt, leaf))
@@ -224,11 +239,11 @@ def r5(repo, run):
             bad.append('the option %r assigns %r instead of %r' % (opt, leaf, val))
         elif raw is not True:
             bad.append('the option %r is not marked as raw yaml' % opt)
-    run.table('C08.R5', len(CMD_CASES), 'command-line options -> addressed key chain')
+    run.table('C08.R5', len(cases), 'command-line options -> addressed key chain')
     if bad:
         run.violation('C08.R5', pc, 'override path of an inline option', '; '.join(bad[:2]))
     else:
-        run.ok('C08.R5', pc, 'override paths (%d options)' % len(CMD_CASES), 'components and indices in written order, one nested mapping per component')
+        run.ok('C08.R5', pc, 'override paths (%d options)' % len(cases), 'components and indices in written order, one nested mapping per component')
 
 
 def check(repo, run, tier):
